@@ -5,6 +5,10 @@
 // src_eq axioms.  /verif/tools/scan_trusted.py lists every item of this file in the evidence.
 // ===========================================================================================
 
+// ASSUMPTION: 64-bit target (usize == u64).  On a 32-bit target `dict_size + cursor` in
+// lzbuffer.rs can exceed usize::MAX for dictionaries >= 2^31 (noted in DESIGN.md, section 6).
+global size_of usize == 8;
+
 #[verifier::external_type_specification]
 #[verifier::external_body]
 pub struct ExIoError(std::io::Error);
